@@ -3,7 +3,7 @@
    Model: model/Tuner.v (tuning loop + generic TrialBackend bookkeeping); the scheduler, the
    workers ("world"), the poll order, the clock and the user criterion are ARBITRARY oracles [o]:
    every theorem is for all parameters, all oracles and all fuel (= every prefix of every run). *)
-From Verif Require Import model.Base model.Tuner proofs.TunerProofs.
+From Verif Require Import model.Base model.Tuner proofs.TunerProofs proofs.TunerComposeProofs.
 
 (* --- budget ---------------------------------------------------------------
    At every loop-iteration boundary of every run (run_loop with any fuel stops at such a boundary
@@ -83,6 +83,36 @@ Theorem c01_resume_only_paused :
 Proof. exact resume_only_paused. Qed.
 Print Assumptions c01_resume_only_paused.
 
+(* --- only a paused trial is ever resumed, WITHOUT the disjunct, for disciplined schedulers -------------
+   [sview t tr] (proofs/TunerComposeProofs.v) is the scheduler's own view of trial t computed from the calls it
+   received and the answers it gave; discipline [Dok tr]: every suggestion "Resume t" is made while the
+   scheduler's answer to the last delivered result of t was PAUSE and it has not asked to resume t since
+   (never for a trial it answered STOP for, was told completed / failed, or does not know).
+   INTERFACE THEOREM: for EVERY scheduler oracle whose answers satisfy the discipline along the run, run() never
+   ends with the backend's resume assertions (EResumeNotPaused / EResumeUnknown); together with
+   c01_resume_only_paused every backend.resume_trial then hits a record that says Paused.
+   The scenario of known finding F-C13-1 (the poll that delivers the result answered with PAUSE already shows the
+   trial Failed) is NOT excluded by the discipline and does not break the conclusion: pause_trial writes Paused into
+   the backend record, so the later resume passes the backend's check although the job had failed - see
+   [c01_discipline_example_failed_then_resumed] below; that a failed trial is resumed is C13's finding, not a breach
+   of "only a paused trial is resumed" as the backend can observe it. *)
+Theorem c01_resume_discipline :
+  forall prm o fuel st x, run_loop prm o fuel = (st, x) -> Dok (s_trace st) ->
+    ~ exists t, x = LExit (Some (EResumeNotPaused t)) \/ x = LExit (Some (EResumeUnknown t)).
+Proof. exact run_loop_discipline. Qed.
+Print Assumptions c01_resume_discipline.
+
+Theorem c01_resume_discipline_run :
+  forall prm o fuel st out, run prm o fuel = (st, out) -> Dok (s_trace st) ->
+    forall t, out <> Raised (EResumeNotPaused t) /\ out <> Raised (EResumeUnknown t).
+Proof. exact run_discipline. Qed.
+Print Assumptions c01_resume_discipline_run.
+
+(* the boolean checker of the discipline that the driver evaluates on traces of REAL schedulers *)
+Theorem c01_discipline_checker_sound : forall tr, dok_b tr = true <-> Dok tr.
+Proof. exact dok_b_sound. Qed.
+Print Assumptions c01_discipline_checker_sound.
+
 (* --- scheduler notifications ---------------------------------------------------
    (1) order and multiplicity per trial run: the automaton of c01_lifecycle restricted to the scheduler's
        methods says: on_trial_add directly follows the start (no other event of that trial in between),
@@ -120,4 +150,23 @@ Example c01_example :
   map (fun t => phase_of t (s_trace st)) [0; 1; 2; 3]%nat = [PE; PE; PE; PN] /\
   existsb (fun e => match e with EBResume 0 None => true | _ => false end) (s_trace st) = true /\
   s_smap st = [(0, Completed); (1, Failed); (2, Stopped)]%nat.
+Proof. vm_compute. repeat split. Qed.
+
+(* non-vacuity of the discipline theorem, and the F-C13-1 scenario inside the model: trial 0 is shown Failed by
+   the poll that delivers its first report, the scheduler answers PAUSE, later suggests to resume it: the
+   discipline holds, the resume is issued (backend record Paused), the status map had said Failed. *)
+Definition ex_f_oracles : oracles :=
+  {| o_world := fun n => nth n [([{| r_metric := 1; r_cost := 1; r_ts := 1 |}], WFailed)]%Q ([], WInProgress);
+     o_ord := fun n => nth n [[]; [0]]%nat [];
+     o_dec := fun n => nth n [PAUSE] CONTINUE;
+     o_sug := fun n => nth n [SStart 5 None; SResume 0 None] SNothing;
+     o_clk := fun _ => 0%Q; o_ext := fun n => Nat.leb 3 n |}.
+Definition ex_f_params : params :=
+  {| n_workers := 1; async := true; wait_completion := false; max_failures := 3; c_wallclock := None; c_evals := None;
+     c_started := None; c_completed := None; c_finished := None; c_cost := None; c_min_metric := None; c_max_metric := None |}.
+Example c01_discipline_example_failed_then_resumed :
+  let '(st, x) := run_loop ex_f_params ex_f_oracles 10 in
+  x = LExit None /\ dok_b (s_trace st) = true /\
+  existsb (fun e => match e with ECbResult 0 Failed 0 PAUSE => true | _ => false end) (s_trace st) = true /\
+  existsb (fun e => match e with EBResume 0 None => true | _ => false end) (s_trace st) = true.
 Proof. vm_compute. repeat split. Qed.
